@@ -210,15 +210,31 @@ def large_streams(ctx):
         sa.append(benc.encode(univ.OctetString(bytes([i % 200]) * r.randint(80, 120))))
     sa2 = univ.SequenceOf(componentType=univ.Any()); sa2.clear(); sa2.append(benc.encode(univ.Integer(7))); sa2.append(benc.encode(univ.Null('')))
     scenarios.append(('indefinite SEQUENCE OF ANY+tail', benc.encode(sa, defMode=False) + benc.encode(sa2, defMode=False) * 3, univ.SequenceOf(componentType=univ.Any())))
+    # untagged ANY whose VALUE is an indefinite-length TLV that opens with a constructed element (the header octets of the
+    # ANY are re-read after a seek back; a source may hand them out one octet per read, seekable or not)
+    inner = univ.Sequence(componentType=namedtype.NamedTypes(
+        namedtype.NamedType('s', univ.Sequence(componentType=namedtype.NamedTypes(namedtype.NamedType('i', univ.Integer())))),
+        namedtype.NamedType('o', univ.OctetString())))
+    series = b''
+    for i in range(r.randint(12, 30)):
+        v = inner.clone(); v['s']['i'] = i * 1000 + 7; v['o'] = bytes([i % 251]) * r.randint(1, 90)
+        series += benc.encode(v, defMode=False)
+    scenarios.append(('indefinite constructed values read as ANY', series, univ.Any()))
+    recs2 = b''
+    for i in range(r.randint(8, 20)):
+        iv = inner.clone(); iv['s']['i'] = -i; iv['o'] = b'q' * r.randint(0, 40)
+        v = rec.clone(); v['o'] = bytes([i]) * r.randint(1, 30); v['a'] = benc.encode(iv, defMode=False)
+        recs2 += benc.encode(v, defMode=r.random() < .5)
+    scenarios.append(('records whose ANY member holds an indefinite constructed value', recs2, rec))
     for name, data, spec in scenarios:
         ref = streams.drive(I.DEC['BER'], _closed(data), [], spec=spec)
         ref_enc = [_reenc(e[1]) for e in ref[0] if not isinstance(e, str)]
-        for kind in ('nonseekable', 'nonseekable-shortreads', 'seekable'):
+        for kind in ('nonseekable', 'nonseekable-shortreads', 'seekable', 'seekable-shortreads', 'seekable-shortreads-1'):
             k = r.randint(2, 7)
             cuts = sorted(r.sample(range(1, len(data)), k - 1))
             sizes = [b - a for a, b in zip([0] + cuts, cuts + [len(data)])]
             sc = streams.schedule_from_sizes(data, sizes, polls={0} if r.random() < .5 else ())
-            s = streams.Growing(seekable=(kind == 'seekable'), max_read=(r.choice([1, 3, 1000]) if 'short' in kind else None))
+            s = streams.Growing(seekable=kind.startswith('seekable'), max_read=((1 if kind.endswith('-1') else r.choice([1, 3, 1000])) if 'short' in kind else None))
             ev, out = streams.drive(I.DEC['BER'], s, sc, spec=spec)
             got = [_reenc(e[1]) for e in ev if not isinstance(e, str)]
             ctx.case(('large', name, kind, len(data), tuple(sizes)), True)
